@@ -303,6 +303,15 @@ def compare(program, live_fi, ref_fi, effects=default_effects, **kw):
         # for (moved to a base class or mixin): it is analysed as that class
         # has it (super() along that class's MRO, its constants)
         lk.setdefault("self_class", rc.qualname)
+    if rk.get("virtual"):
+        # the reference is read with a private helper of its own expanded
+        # because the live class no longer has that method: wherever the
+        # live code keeps the helper now (a module-level function, say), it
+        # is expanded as well
+        _names, _old = set(rk["virtual"]), lk.get("inline")
+        lk["inline"] = lambda f, _n=_names, _o=_old: (
+            getattr(f, "name", None) in _n
+            and not A.has_semantic_decorator(f)) or bool(_o and _o(f))
     lk.setdefault("loop_policy", A.carried_state_policy(live_fi.node))
     rk.setdefault("loop_policy", A.carried_state_policy(ref_fi.node))
     kw = dict(kw, live_kw=lk, ref_kw=rk)
